@@ -20,7 +20,7 @@ def main():
         if want and d not in want:
             continue
         meta = json.load(open(os.path.join(root, d, "meta.json")))
-        prop = meta["property"]
+        prop = meta.get("caught_via", meta["property"])       # a change that breaks another property more visibly than its target
         p = subprocess.run([sys.executable, os.path.join(VERIF, "tools", "seedcheck.py"), prop, "--src", os.path.join(root, d),
                             "--name", d, "--checks", prop], stdout=subprocess.PIPE, stderr=subprocess.STDOUT, text=True)
         m2 = json.load(open(os.path.join(root, d, "meta.json")))
@@ -29,6 +29,8 @@ def main():
         expect_drift = meta.get("expected") == "drift"
         ok = (drift and not caught) if expect_drift else caught
         print("%-6s %-4s %s" % (d, prop, "ok (%s)" % ("MODEL-DRIFT" if expect_drift else "VIOLATION") if ok else "MISSED"))
+        if "caught_via" in meta:
+            m2["caught_via"], m2["note"] = meta["caught_via"], meta.get("note", "")
         if expect_drift:
             m2["expected"] = "drift"
             json.dump(m2, open(os.path.join(root, d, "meta.json"), "w"), indent=1)
